@@ -151,6 +151,13 @@ def check_model_case(case, ctx):
                 if node[0] != 'cell':
                     ok = False
                 else:
+                    tgt = desc['books'][node[1]]['sheets'][node[2]]['cells'].get(
+                        '%s%d' % (gw.col_name(node[3]), node[4])) or {}
+                    if 'f' in tgt or str(tgt.get('v', '')).startswith('#'):
+                        # a name over a cell with a formula of its own (error
+                        # constants are formulas here): the open finding
+                        # C07-range-override-stale-member owns that clause
+                        ok = False
                     ov[tuple(node[1:5])] = wbrun.canon_value(a)
         if ok:
             ev = rw.Evaluator(desc, ov)
@@ -532,6 +539,20 @@ def check_circular_case(case, ctx):
                     'none' if not dv else 'circular placeholder (initial distance %r)' % (
                         dv.get('initial_dist'),)
                     if type(dv.get('initial_dist')).__name__ == 'inf' else 'frozen value')
+                # placeholders among the output's precedents inside the function
+                anc, seen_, st_ = [], set(), [o]
+                dvs = getattr(func.dsp, 'default_values', {})
+                pred_ = func.dsp.dmap.pred
+                while st_:
+                    k_ = st_.pop()
+                    if k_ in seen_:
+                        continue
+                    seen_.add(k_)
+                    dv_ = dvs.get(k_) or {}
+                    if type(dv_.get('initial_dist')).__name__ == 'inf':
+                        anc.append(str(k_))
+                    st_.extend(pred_.get(k_, ()))
+                w['circular_placeholders_upstream_in_function'] = sorted(anc)[:8]
                 ctx.violation('circular:differs:%s->%s:%s' % (
                     wbrun._cls(g), wbrun._cls(x),
                     'input-in-cycle' if set(I) & set(case['desc']['cells'])
